@@ -902,7 +902,7 @@ where
                         self.elem_format_code = Some(format_code);
 
                         // Account for offset
-                        let len = len - OFFSET_ARRAY8;
+                        let len = len.checked_sub(OFFSET_ARRAY8).ok_or(Error::InvalidLength)?;
                         // let buf = self.reader.read_bytes(len)?;
 
                         visitor.visit_seq(ArrayAccess::new(self, len, count))
@@ -933,7 +933,9 @@ where
                         self.elem_format_code = Some(format_code);
 
                         // Account for offset
-                        let len = len - OFFSET_ARRAY32;
+                        let len = len
+                            .checked_sub(OFFSET_ARRAY32)
+                            .ok_or(Error::InvalidLength)?;
                         // let buf = self.reader.read_bytes(len)?;
 
                         visitor.visit_seq(ArrayAccess::new(self, len, count))
@@ -958,7 +960,7 @@ where
                     as usize;
 
                 // Account for offset
-                let len = len - OFFSET_LIST8;
+                let len = len.checked_sub(OFFSET_LIST8).ok_or(Error::InvalidLength)?;
 
                 // Make sure there is no other element format code
                 self.elem_format_code = None;
@@ -979,7 +981,7 @@ where
                 }
 
                 // Account for offset
-                let len = len - OFFSET_LIST32;
+                let len = len.checked_sub(OFFSET_LIST32).ok_or(Error::InvalidLength)?;
 
                 // Make sure there is no other element format code
                 self.elem_format_code = None;
@@ -1017,7 +1019,7 @@ where
                     as usize;
 
                 // Account for offset
-                let size = size - OFFSET_LIST8;
+                let size = size.checked_sub(OFFSET_LIST8).ok_or(Error::InvalidLength)?;
 
                 // Make sure there is no other element format code
                 self.elem_format_code = None;
@@ -1030,7 +1032,9 @@ where
                 let count = u32::from_be_bytes(count_bytes) as usize;
 
                 // Account for offset
-                let size = size - OFFSET_LIST32;
+                let size = size
+                    .checked_sub(OFFSET_LIST32)
+                    .ok_or(Error::InvalidLength)?;
 
                 // Make sure there is no other element format code
                 self.elem_format_code = None;
@@ -1067,7 +1071,7 @@ where
                     as usize;
 
                 // Account for offset
-                let size = size - OFFSET_MAP8;
+                let size = size.checked_sub(OFFSET_MAP8).ok_or(Error::InvalidLength)?;
 
                 (size, count)
             }
@@ -1086,7 +1090,7 @@ where
                 }
 
                 // Account for offset
-                let size = size - OFFSET_MAP32;
+                let size = size.checked_sub(OFFSET_MAP32).ok_or(Error::InvalidLength)?;
 
                 (size, count)
             }
